@@ -20,7 +20,8 @@ def run(ctx, rep):
     # what a definition compiles to depends on that definition alone: no cache or counter shared between compilations (a cache keyed
     # without the ignore(case) flag hands a later definition the case sensitivity of an earlier one)
     from props import c16
-    c16.rule_entropy(rep, [('logos_codegen', crate)])
+    crates = ctx.mir('ws-default')
+    c16.rule_entropy(rep, [(cn, crates[cn]) for cn in ('logos_codegen', 'logos_cli', 'logos_derive') if cn in crates])
     # a literal is compared with the source's own bytes in both runtimes (read(offset) is the byte-level sub-slice at offset)
     from props import rt
     rt.rule_read_bounds(rep, ctx.mir('ws-default')['logos'], 'ws-default')
